@@ -11,6 +11,7 @@ recomputation from the leaves, `root.locate(node.get_location()) is node`, `chil
 from __future__ import annotations
 
 import fractions
+import hashlib
 import itertools
 import json
 import multiprocessing
@@ -388,6 +389,14 @@ def exec_op(world: World, op):
     return lean, err, out
 
 
+def _vol_nested(node, above: bool) -> bool:
+    """a node with a volatile count below another one"""
+    vol = bool(node.volatile_repetition)
+    if vol and above:
+        return True
+    return any(_vol_nested(c, above or vol) for c in node)
+
+
 def applicable_pre(world: World, op) -> bool:
     """`Pre` of the model plus the input classes left to other findings (see notes/C09.md)."""
     name, path = op[0], op[1]
@@ -401,6 +410,8 @@ def applicable_pre(world: World, op) -> bool:
     if name == 'split':
         return op[2] is None or op[2] >= 0        # PF-C06-2: negative child_index
     if name in ('roll', 'cleanup'):
+        if name == 'cleanup' and op[3] and _vol_nested(node, False):
+            return False                          # cleanup would merge two volatile counts (PF-07/08)
         return all(not (n._waveform is not None and len(n) > 0) for _p, n in world.nodes(node))
     if name == 'merge':
         return not (len(node) == 1 and node.volatile_repetition and node[0].volatile_repetition)  # PF-07/08
@@ -769,7 +780,7 @@ def _work(job):
             recs.append(run_history(job[1], ops=ops))
     out = []
     for rec, res in zip(recs, check_records(recs)):
-        item = {'res': res, 'kinds': rec['kinds'], 'line_hash': hash(rec['line']), 'size': rec['size'],
+        item = {'res': res, 'kinds': rec['kinds'], 'line_hash': hashlib.blake2b(rec['line'].encode(), digest_size=8).hexdigest(), 'size': rec['size'],
                 'nsteps': len(rec['ops']), 'line': rec['line'] if (res['violation'] or res['drift']) else rec['line'][:500]}
         if res['violation'] or res['drift']:
             item['init'] = rec['init']
@@ -793,7 +804,7 @@ def _account(ctx, items, family):
     seen = ctx.extra.setdefault('_violation_signatures', set())
     for it in items:
         res = it['res']
-        ctx.case('%s:%d:%s' % (family, it['line_hash'], it['line'][:200]), nontrivial=it['nsteps'] > 0,
+        ctx.case('%s:%s:%s' % (family, it['line_hash'], it['line'][:200]), nontrivial=it['nsteps'] > 0,
                  sample=False)
         ctx.evaluations += max(it['nsteps'] - 1, 0)          # every step is compared and judged
         ctx.count(family + ':histories')
@@ -945,6 +956,12 @@ def _check_beside(ctx, n):
             else:
                 op = rand_op(rng, w, max_nodes=40)
             if op[0] == 'copy' or not applicable_pre(w, op):
+                w.root = main
+                continue
+            if op[0] == 'unroll' and not op[1]:
+                # `d.unroll()` on the root of the side tree splices copies into the FORMER parent through the stale
+                # parent pointer / index (same class PF-C09-2); the model has no parent to address: not generated
+                ctx.count('beside:unroll-of-side-root-skipped')
                 w.root = main
                 continue
             in_class = d.parent is not None and any(m is d.parent for _p, m in w.nodes(main))
